@@ -11,6 +11,7 @@ CONSTANTS MaxLinks = 2
  PinSer = FALSE
  PinBos = FALSE
  Spans = {0}
+ Dmg = {}
  PLen = 2
  ReadLens = {100}
  MaxCalls = 2
